@@ -10,12 +10,13 @@
    `c15 pinned <sz> <nslots> <op> …`   → as `run`, but typed `==` uses the lock targets of the
                                           pinned tree (`[self, self]`)
    answer: one `|`-separated record per op: `<out>;<slot>/<slot>/…;<live>`
-      out   = `u` | `n<k>` | `b0` | `b1` | `o-` | `o<k>` | `v<k,k,…>` | `F:<fault>`
+      out   = `u` | `n<k>` | `b0` | `b1` | `o-` | `o<k>` | `v<k,k,…>` | `t<byte,byte,…>` (a string) | `F:<fault>`
       slot  = `-` (empty) or `<len>:<cap>:<e,e,…>`   (spec: cap is `?`)
       live  = live element tokens (spec: `?`)
    ops:  n:<d>  f:<d>:<v,v,…>  c:<d>:<src>  d:<h>  p:<h>:<v>  g:<h>:<i>  l:<h>  e:<h>  k:<h>
          s:<h>:<i>:<j>  +:<d>:<a>:<b>  ?:<h>:<v>  i:<h>:<v>  =:<a>:<b> (typed)  ~:<a>:<b> (erased)
-         v:<h>  it:<h>  j:<h>
+         v:<h>  it:<h>  j:<h>:<byte,byte,…> (join with that separator; element v = the string `elemStr v`)
+   `c15 str <v>`                       → the bytes of `elemStr v` (the string the element value `v` stands for)
 -/
 import Driver.Util
 import RotoV.Model.ListM
@@ -48,7 +49,8 @@ def parseOp (tok : String) : Option Op :=
   | ["~", a, b] => do pure (.eq (← nat? a) (← nat? b) false)
   | ["v", h] => (nat? h).map .toVec
   | ["it", h] => (nat? h).map .iter
-  | ["j", h] => (nat? h).map .join
+  | ["j", h, sep] => do pure (.join (← nat? h) (← natList? sep))
+  | ["j", h] => do pure (.join (← nat? h) [44])
   | _ => none
 
 def showFault : Fault → String
@@ -66,6 +68,7 @@ def showOut : Out → String
   | .opt none => "o-"
   | .opt (some n) => s!"o{n}"
   | .vals l => s!"v{showNats l}"
+  | .str l => s!"t{showNats l}"
   | .fault f => s!"F:{showFault f}"
 
 def showSlots (s : St) : String :=
@@ -125,6 +128,10 @@ def handle (args : List String) : String :=
     s!"typedEq shortcut={Gen.ListLocks.typedEqShortcut} locksLt={repr Gen.ListLocks.typedEqLocksLt} cmpLt={repr Gen.ListLocks.typedEqCompareLt} locksGe={repr Gen.ListLocks.typedEqLocksGe} cmpGe={repr Gen.ListLocks.typedEqCompareGe}; " ++
     s!"erasedEq shortcut={Gen.ListLocks.erasedEqShortcut} locksLt={repr Gen.ListLocks.erasedEqLocksLt} cmpLt={repr Gen.ListLocks.erasedEqCompareLt} locksGe={repr Gen.ListLocks.erasedEqLocksGe} cmpGe={repr Gen.ListLocks.erasedEqCompareGe}; " ++
     s!"concat same={repr Gen.ListLocks.concatStepsSame} lt={repr Gen.ListLocks.concatStepsLt} ge={repr Gen.ListLocks.concatStepsGe}" |>.replace "\n" " "
+  | ["str", v] =>
+    match nat? v with
+    | some v => s!"t{showNats (elemStr v)}"
+    | none => "bad-op"
   | ["cap", sz, req] =>
     match nat? sz, nat? req with
     | some sz, some req =>
